@@ -788,8 +788,8 @@ def gen_cases(rng, tier):
     if "cls" not in _S:
         setup()
     tbl = T()
-    per_rt = 2 if tier == "quick" else 12
-    per_parse = 1 if tier == "quick" else 6
+    per_rt = 10 if tier == "quick" else 40
+    per_parse = 5 if tier == "quick" else 20
     avs = [cd["id"] for cd in tbl if cd["kind"] == "attrValue"]
     dflt = [cd["id"] for cd in tbl if cd["defaults"]]
     holders = {}  # class id -> classes that can hold it (to nest interesting classes)
@@ -809,19 +809,19 @@ def gen_cases(rng, tier):
             yield mk_parse(cid, tree, rng)
 
     # 2. the classes with special handling, alone and nested (Attribute/AttributeValue inside statements ...)
-    n_sp = 60 if tier == "quick" else 600
+    n_sp = 200 if tier == "quick" else 2000
     focus = avs + dflt + [h for a in avs + dflt for h in holders.get(a, [])]
     for _ in range(n_sp):
         cid = rng.choice(focus)
         yield mk_rt(gen_inst(rng, cid, rng.choice([2, 3, 4]), {"rich": True}))
         yield mk_parse(cid, gen_tree(rng, cid, rng.choice([2, 3])), rng)
     for cid in avs:
-        for _ in range(40 if tier == "quick" else 400):
+        for _ in range(120 if tier == "quick" else 1500):
             yield mk_rt(gen_inst(rng, cid, 1, {}))
             yield mk_parse(cid, gen_tree(rng, cid, 1), rng)
 
     # 3. recorded defect classes, one root cause per case (everything else in the case is clean)
-    n_def = 25 if tier == "quick" else 250
+    n_def = 60 if tier == "quick" else 600
     allc = [cd["id"] for cd in tbl]
     for _ in range(n_def):
         opt = {"cr": True}
@@ -845,7 +845,7 @@ def gen_cases(rng, tier):
 
     # 4. documents with a DTD: with and without entity declarations; wrong roots
     kinds = list(DTD_TEXT)
-    n_dtd = 80 if tier == "quick" else 600
+    n_dtd = 250 if tier == "quick" else 2500
     for _ in range(n_dtd):
         cid = rng.choice(allc)
         tree = gen_tree(rng, cid, 2)
@@ -866,7 +866,7 @@ def gen_cases(rng, tier):
             tree["t"] = (tree["t"] or "") + "ENTITYREF"
             style["entity_ref"] = True
         yield mk_parse(cid, tree, rng, dtd=dtd, style=style)
-    for _ in range(40 if tier == "quick" else 300):
+    for _ in range(120 if tier == "quick" else 1200):
         cid = rng.choice(allc)
         other = rng.choice(allc)
         tree = gen_tree(rng, other, 1)
@@ -878,7 +878,8 @@ def gen_cases(rng, tier):
     # 5. oversized members: nothing may be truncated
     big = [("text", 300_000), ("attr", 120_000), ("kids", 1500), ("exttext", 200_000), ("ea", 800)]
     if tier != "quick":
-        big += [("text", 2_000_000), ("kids", 4000), ("attr", 1_000_000)]
+        # (the interpreted Lean driver recurses once per character in `normCR`: keep texts below ~1M characters)
+        big += [("text", 700_000), ("kids", 4000), ("attr", 1_000_000), ("exttext", 500_000), ("ea", 3000)]
     textual = [cd["id"] for cd in tbl if cd["kind"] == "plain" and cd["attrs"] and not cd["defaults"]]
     listy = [cd["id"] for cd in tbl if any(ch[4] and ch[3] is not None for ch in cd["children"]) and not cd["defaults"]]
     for what, n in big:
